@@ -49,7 +49,7 @@ func (db *Database) SearchWithOptions(query string, options SearchOptions) []Sea
 	}
 
 	queryWords := strings.Fields(strings.ToLower(query))
-	results := make([]SearchResult, 0, utils.Min(len(db.Commands), options.Limit*constants.ResultsBufferMultiplier))
+	results := make([]SearchResult, 0, utils.CapHint(len(db.Commands), options.Limit*constants.ResultsBufferMultiplier))
 
 	currentPlatform := getCurrentPlatform()
 
@@ -73,7 +73,7 @@ func (db *Database) SearchWithPipelineOptions(query string, options SearchOption
 	}
 
 	queryWords := strings.Fields(strings.ToLower(query))
-	results := make([]SearchResult, 0, utils.Min(len(db.Commands), options.Limit*constants.ResultsBufferMultiplier))
+	results := make([]SearchResult, 0, utils.CapHint(len(db.Commands), options.Limit*constants.ResultsBufferMultiplier))
 
 	for i := range db.Commands {
 		cmd := &db.Commands[i]
@@ -715,6 +715,10 @@ func (db *Database) SearchWithNLP(query string, options SearchOptions) []SearchR
 	if !options.UseNLP {
 		// Fall back to regular search if NLP is disabled
 		return db.SearchWithFuzzy(query, options)
+	}
+
+	if options.Limit <= 0 {
+		options.Limit = constants.DefaultSearchLimit
 	}
 
 	// Use shared TF-IDF searcher if available
